@@ -182,7 +182,14 @@ class QueueSemantivaOrchestrator:
 
                 # If the user requested a Future, resolve it now
                 if jid in self.pending_futures:
-                    self.pending_futures[jid].set_result((msg.data, msg.context))
+                    error = (msg.metadata or {}).get("error")
+                    if error is not None:
+                        # The worker reported a failed job: complete exceptionally.
+                        if not isinstance(error, BaseException):
+                            error = RuntimeError(str(error))
+                        self.pending_futures[jid].set_exception(error)
+                    else:
+                        self.pending_futures[jid].set_result((msg.data, msg.context))
                     del self.pending_futures[jid]
 
                 # Acknowledge receipt if transport supports it
